@@ -27,6 +27,9 @@ Record Inv (s : state) : Prop := {
   i_maxactive : 0 < c_maxactive (s_cfg s);
   i_buf_ok : pb_ok (s_buf s);
   i_clen : s_committed s <= lenN (s_clog s);
+  (* since 8728288 an incomplete commit loop rewinds the commit log: it never holds entries beyond
+     committedTxID *)
+  i_cleq : lenN (s_clog s) = s_committed s;
   (* committed and precommitted records are intact, chained, at increasing offsets below
      precommittedTxLogSize *)
   i_chainB : chain (s_txlog s) 0 (H []) 0 (live s) (s_ptls s);
@@ -78,6 +81,13 @@ Lemma nth_error_skipn' {A} (l : list A) n k : nth_error (skipn n l) k = nth_erro
 Proof.
   revert l; induction n as [|n IH]; intros l; [reflexivity|].
   destruct l as [|a l]; cbn [skipn plus nth_error]; [destruct k; reflexivity|apply IH].
+Qed.
+
+Lemma firstn_succ_nth' {A} (l : list A) j x : nth_error l j = Some x -> firstn (S j) l = firstn j l ++ [x].
+Proof.
+  revert j; induction l as [|a l IH]; intros [|j] Hn; try discriminate.
+  - injection Hn as ->. reflexivity.
+  - cbn [nth_error] in Hn. rewrite !firstn_cons. rewrite (IH _ Hn). reflexivity.
 Qed.
 
 Lemma ids_from_skipn i B n : ids_from i B -> ids_from (i + N.of_nat n) (skipn n B).
@@ -161,24 +171,14 @@ Proof.
     + cbn [fst snd]. exists 0%nat. cbn [firstn map]. rewrite app_nil_r. split; auto. split; [lia|auto].
 Qed.
 
-(* a state that differs from an invariant one only by its commit log = C ++ (a prefix of the buffered
-   entries) still satisfies the invariant *)
-Lemma Inv_clog_prefix s m :
-  Inv s ->
-  Inv (upd_clog s (clogC s ++ map cent (firstn m (pb_list (s_buf s))))).
+Lemma clogC_all s : lenN (s_clog s) = s_committed s -> clogC s = s_clog s.
+Proof. intros E. unfold clogC. apply firstn_all2. unfold lenN in E. lia. Qed.
+
+(* an incomplete commit loop leaves the commit log rewound to committedTxID: nothing changed *)
+Lemma Inv_clog_rewound s : Inv s -> Inv (upd_clog s (clogC s)).
 Proof.
-  intros HI. pose proof HI as [].
-  assert (HC : lenN (clogC s) = s_committed s) by (apply clogC_len; auto).
-  assert (Hfirst : firstn (N.to_nat (s_committed s)) (clogC s ++ map cent (firstn m (pb_list (s_buf s)))) = clogC s).
-  { apply firstn_app_exact. unfold lenN in HC. lia. }
-  unfold live, clogC in *.
-  constructor; unfold live, clogC; sp; auto.
-  - rewrite lenN_app. lia.
-  - rewrite Hfirst. auto.
-  - rewrite <- (firstn_skipn m (pb_list (s_buf s))) in i_chainB0.
-    rewrite map_app, app_assoc in i_chainB0. eapply chain_prefix; eauto.
-  - rewrite Hfirst. auto.
-  - rewrite Hfirst. auto.
+  intros HI. pose proof HI as []. eapply Inv_ext; [..|exact HI]; try reflexivity.
+  sp. apply clogC_all. auto.
 Qed.
 
 Lemma may_commit_inv s : Inv s -> Inv (fst (may_commit s)).
@@ -188,14 +188,14 @@ Proof.
   destruct (N.ltb_spec (lenN (s_clog s)) (s_committed s)) as [L1|L1]; [exact HI|].
   fold (clogC s).
   destruct (N.ltb_spec (commit_allowed_upto s) (s_committed s)) as [L2|L2].
-  - sp. pose proof (Inv_clog_prefix s 0 HI) as HP. cbn [firstn map] in HP. rewrite app_nil_r in HP. exact HP.
+  - sp. exact (Inv_clog_rewound s HI).
   - set (count := commit_allowed_upto s - s_committed s).
     pose proof HI as [].
     destruct (commit_loop_spec (s_buf s) i_buf_ok0 (N.to_nat count) 0 count (clogC s) (0, zeros32)
                 ltac:(lia) ltac:(lia)) as (m & E1 & Lm & E2).
     destruct (commit_loop (N.to_nat count) (s_buf s) 0 count (clogC s) (0, zeros32)) as [clog1 r] eqn:EL.
     cbn [fst snd] in E1, E2. cbn [skipn N.to_nat] in E1. subst clog1.
-    pose proof (Inv_clog_prefix s m HI) as HP.
+    pose proof (Inv_clog_rewound s HI) as HP.
     destruct r as [[lid lalh]|e|]; [|exact HP|exact HP].
     destruct E2 as (Em & E3 & _).
     destruct (E3 ltac:(lia)) as (Lc & pe & Hn & -> & ->).
@@ -280,8 +280,8 @@ Proof.
                 ltac:(lia) ltac:(lia)) as (m & E1 & Lm & E2).
     destruct (commit_loop (N.to_nat count) (s_buf s) 0 count (clogC s) (0, zeros32)) as [clog1 r] eqn:EL.
     cbn [fst snd] in E1, E2. subst clog1.
-    assert (Hk : clog_keep s (upd_clog s (clogC s ++ map cent (firstn m (skipn (N.to_nat 0) (pb_list (s_buf s))))))).
-    { split; sp; [lia|apply Hpre]. }
+    assert (Hk : clog_keep s (upd_clog s (clogC s))).
+    { split; sp; [lia|]. rewrite <- (app_nil_r (clogC s)) at 1. apply Hpre. }
     destruct r as [[lid lalh]|e|]; [|split; [exact Hk|reflexivity]|split; [exact Hk|reflexivity]].
     destruct (N.eqb_spec lid (commit_allowed_upto s)) as [Ef|Nf]; cbn [negb]; [|split; [exact Hk|reflexivity]].
     destruct (pb_advance (s_buf s) count) as [b'|e|]; [|split; [exact Hk|reflexivity]|split; [exact Hk|reflexivity]].
